@@ -25,6 +25,9 @@ from translate import base  # noqa: E402
 
 MODULES = ["ktn_cfg", "hef", "similarity", "io_spec", "bh", "neb", "lbfgs_wiring", "align", "pairs", "history",
            "graph", "model_data", "moves", "surfaces", "hash_sites", "bonds", "transcripts"]
+import os  # noqa: E402
+if os.environ.get("AUDIT_NO_SKELETON") != "1":      # the transcription tie (control flow of the hand-modelled functions)
+    MODULES.append("skeleton")
 
 
 class Session:
